@@ -6,7 +6,7 @@ Everything is a deterministic function of the numpy Generator passed in.
 import numpy as np
 from scipy.special import logsumexp
 
-SHAPES = ['gauss', 'multi', 'elongated', 'parabola', 'ring', 'corner', 'wrapped', 'face', 'blobs', 'core_halo']
+SHAPES = ['gauss', 'multi', 'elongated', 'parabola', 'ring', 'corner', 'wrapped', 'face', 'blobs', 'core_halo', 'free_dims']
 NN_KW = {'hidden_layer_sizes': (16, 8)}
 
 
@@ -46,6 +46,13 @@ def problem(rng, shape, d, n_bg=3000, n_shape=800, n_live=None):
                                    -0.5 * np.sum(((x - c2) / s2) ** 2, axis=-1) + lw - d * np.log(s2 / s1))
         k1 = int(0.85 * n_shape)
         draw = np.vstack([c + s1 * rng.normal(size=(k1, d)), c2 + s2 * rng.normal(size=(n_shape - k1, d))])
+    elif shape == 'free_dims':   # only the first two parameters are constrained: the members become genuine cube-ellipsoid mixtures
+        c = rng.uniform(0.3, 0.7, d)
+        s0 = rng.uniform(0.03, 0.08, d)
+        nc = min(2, d - 1) if d > 1 else 1
+        f = lambda x: -0.5 * np.sum(((x[..., :nc] - c[:nc]) / s0[:nc]) ** 2, axis=-1)
+        draw = rng.random((n_shape, d))
+        draw[:, :nc] = c[:nc] + s0[:nc] * rng.normal(size=(n_shape, nc))
     elif shape == 'elongated':
         c = rng.uniform(0.4, 0.6, d)
         q, _ = np.linalg.qr(rng.normal(size=(d, d)))
